@@ -238,6 +238,9 @@ pub fn install_panic_hook() {
             String::new()
         };
         eprintln!("[panic] {loc}: {msg}");
+        if std::env::var_os("VH_BT").is_some() {
+            eprintln!("{}", std::backtrace::Backtrace::force_capture());
+        }
     }));
 }
 
